@@ -138,7 +138,10 @@ type Bound struct {
 }
 
 // Bind registers the spec with the given modes on a fresh schemabuilder schema.
-func Bind(s *Spec, modes Modes) (b *Bound, err error) {
+func Bind(s *Spec, modes Modes) (b *Bound, err error) { return BindWith(s, modes, nil) }
+
+// BindWith is Bind plus a callback that may register more types and fields.
+func BindWith(s *Spec, modes Modes, extra func(*schemabuilder.Schema)) (b *Bound, err error) {
 	defer func() {
 		if r := recover(); r != nil {
 			err = fmt.Errorf("schema registration panicked: %v", r)
@@ -165,6 +168,9 @@ func Bind(s *Spec, modes Modes) (b *Bound, err error) {
 			}
 			registerField(s, env, obj, os.Type, goType, f, m)
 		}
+	}
+	if extra != nil {
+		extra(schema)
 	}
 	mut := schema.Mutation()
 	mut.FieldFunc("bump", func(ctx context.Context, a BumpArgs) bool {
